@@ -11,6 +11,7 @@ from collections import Counter
 
 from .. import gen
 from .. import refmodel as M
+from .. import salt as SALT
 
 ID = "C04"
 LEVEL = "exploration"
@@ -29,7 +30,7 @@ ASSUMPTIONS = [
     "float agreement is judged to 1e-9 relative + 1e-12 absolute; counts are exact",
 ]
 REQUIRED = {"all": ["single_residues", "residue_pairs", "random_sequences", "whitespace_presentations",
-                    "ppii_scale_switches", "longer_than_1000"]}
+                    "ppii_scale_switches", "longer_than_1000", "salted_objects"]}
 NRANDOM = {"quick": 4000, "thorough": 30000}
 
 
@@ -99,9 +100,13 @@ def calls(obj):
 
 def observe(S, pres, order_seed, rep):
     obj = S["SP"](pres)
+    r = random.Random(order_seed)
+    if r.random() < 0.35:
+        word_ = "".join(ch for ch in pres.upper() if not ch.isspace())
+        SALT.salt(S, obj, word_, r, rep, cheap=len(word_) > 150)
     table = calls(obj)
     names = list(table) * 2
-    random.Random(order_seed).shuffle(names)
+    r.shuffle(names)
     out = {}
     last_ppii = None
     for nm in names:
